@@ -18,6 +18,9 @@ V = os.path.dirname(os.path.dirname(os.path.abspath(__file__)))
 
 # (name, check, file, old, new)
 M = [
+    # ---- C14 limit spellings
+    ("c14-kb-is-1000", "C14", "xonsh/tools.py", "_kb_to_b = lambda x: 1024 * int(x)", "_kb_to_b = lambda x: 1000 * int(x)"),
+    ("c14-regex-drops-sign-and-space", "C14", "xonsh/tools.py", 'r"([-+]?[0-9]*\\.?[0-9]+([eE][-+]?[0-9]+)?)\\s*([A-Za-z]*)"', 'r"([-+]?[0-9]*\\.?[0-9]+([eE][-+]?[0-9]+)?)\\s?([A-Za-z]*)"'),
     # ---- C15 alias expansion
     ("c15-seen-not-updated", "C15", "xonsh/aliases.py", "seen_tokens = seen_tokens | {token}", "seen_tokens = seen_tokens"),
     ("c15-args-before-rest", "C15", "xonsh/aliases.py", "acc_args = rest + list(acc_args)", "acc_args = list(acc_args) + rest"),
